@@ -201,17 +201,25 @@ func (t ty) deref() ty {
 	return ty{}
 }
 
+// pkgAlias: go-ipld-prime re-exports the data model's names (ipld.Node = datamodel.Node, ipld.Kind_Int = datamodel.Kind_Int)
+func pkgAlias(name string) string {
+	if name == "ipld" {
+		return "datamodel"
+	}
+	return name
+}
+
 func goTypeName(p *pkg, e ast.Expr) string {
 	switch x := e.(type) {
 	case *ast.Ident:
 		switch x.Name {
-		case "string", "bool", "int", "int64", "int8", "int16", "int32", "byte", "error", "uint8":
+		case "string", "bool", "int", "int64", "int8", "int16", "int32", "byte", "error", "uint8", "float64":
 			return x.Name
 		}
 		return p.name + "." + x.Name
 	case *ast.SelectorExpr:
 		if id, ok := x.X.(*ast.Ident); ok {
-			return id.Name + "." + x.Sel.Name
+			return pkgAlias(id.Name) + "." + x.Sel.Name
 		}
 	case *ast.StarExpr:
 		return "*" + goTypeName(p, x.X)
@@ -289,6 +297,8 @@ func leanOfGoName(p *pkg, g string) (string, bool) {
 		return "Int", true
 	case "byte", "uint8":
 		return "UInt8", true
+	case "float64":
+		return "UInt64", true // the IEEE-754 bits (Model/Node.lean: no Lean Float anywhere)
 	case "error":
 		return "(Option GoErr)", true // an error VALUE held in a variable (nil = none); results of type error stay GoM outcomes
 	}
@@ -348,7 +358,15 @@ func typeOfExpr(p *pkg, e ast.Expr) (ty, bool) {
 		}
 		last := ft.Results.List[len(ft.Results.List)-1]
 		if goTypeName(p, last.Type) != "error" {
-			return ty{}, false
+			// func(P…) T with one result that is not an error: a function that cannot fail (a predicate handed in by the caller)
+			if len(ft.Results.List) != 1 {
+				return ty{}, false
+			}
+			t, ok := typeOfExpr(p, last.Type)
+			if !ok {
+				return ty{}, false
+			}
+			return ty{"(" + strings.Join(append(ps, t.lean), " → ") + ")", "purefunc\x00" + t.lean + "\x00" + t.gon}, true
 		}
 		res := ty{"Unit", "unit"}
 		if len(ft.Results.List) == 2 {
@@ -596,7 +614,7 @@ func (f *fn) expr(e ast.Expr) ex {
 		fail(x.Pos(), "unknown identifier %s", x.Name)
 	case *ast.SelectorExpr:
 		if id, ok := x.X.(*ast.Ident); ok {
-			if c, ok := constTable[id.Name+"."+x.Sel.Name]; ok {
+			if c, ok := constTable[pkgAlias(id.Name)+"."+x.Sel.Name]; ok {
 				return ex{c.code, true, c.t}
 			}
 		}
@@ -819,6 +837,13 @@ func (f *fn) call(x *ast.CallExpr) ex {
 		return f.lift1(a, "(len %s)", intTy)
 	case "panic":
 		fail(x.Pos(), "panic in expression position")
+	case "cmp.Compare":
+		// generic: the integer order, or Go's total order on float64 (NaN below everything, equal to itself)
+		a, b := f.expr(x.Args[0]), f.expr(x.Args[1])
+		if a.t.gon == "float64" {
+			return ex{"(floatCompare " + a.code + " " + b.code + ")", a.pure && b.pure, intTy}
+		}
+		return ex{"(cmpInt " + a.code + " " + b.code + ")", a.pure && b.pure, intTy}
 	case "append":
 		if len(x.Args) == 2 {
 			a, b := f.expr(x.Args[0]), f.expr(x.Args[1])
@@ -858,6 +883,11 @@ func (f *fn) call(x *ast.CallExpr) ex {
 			parts := strings.SplitN(v.t.gon, "\x00", 3)
 			codes, _, _ := f.args(x.Args)
 			return impure("("+v.lean+" "+strings.Join(codes, " ")+")", ty{parts[1], parts[2]})
+		}
+		if v, isVar := f.lookup(id.Name); isVar && strings.HasPrefix(v.t.gon, "purefunc\x00") {
+			parts := strings.SplitN(v.t.gon, "\x00", 3)
+			codes, pure, _ := f.args(x.Args)
+			return ex{"(" + v.lean + " " + strings.Join(codes, " ") + ")", pure, ty{parts[1], parts[2]}}
 		}
 	}
 	if name != "" {
@@ -1315,6 +1345,56 @@ func (f *fn) stmtList(o *w, list []ast.Stmt) {
 				}
 			}
 		}
+		// x, err := call(); if err != nil { …statements that end the function and do not mention err… }   in a function that has no
+		// error result (the callee's error VALUE is answered by a value of this function; a panic of the callee stays a panic)
+		//    ==>   let some x ← attempt call | do …
+		if as, ok := st.(*ast.AssignStmt); ok && as.Tok == token.DEFINE && len(as.Rhs) == 1 && len(as.Lhs) == 2 && i+1 < len(list) && f.resKind == "value" {
+			if id, ok := as.Lhs[1].(*ast.Ident); ok && id.Name == "err" {
+				if body, ok := f.catches(list[i+1]); ok {
+					if _, isCall := as.Rhs[0].(*ast.CallExpr); isCall {
+						r := f.expr(as.Rhs[0])
+						if r.pure {
+							fail(as.Pos(), "error-returning call translated as pure")
+						}
+						xid, ok := as.Lhs[0].(*ast.Ident)
+						if !ok || xid.Name == "_" {
+							fail(as.Pos(), "caught call without a result variable")
+						}
+						v := f.declare(xid.Name, r.t)
+						o.line("let some %s ← attempt %s", v.lean, r.mon())
+						o.ind++
+						o.line("| do")
+						o.ind++
+						f.push()
+						f.block(o, body)
+						f.pop()
+						o.ind -= 2
+						i++
+						continue
+					}
+				}
+			}
+		}
+		// x, err := call(); if err != nil { panic(…) }    ==>   let x ← errToPanic call    (the callee's error value becomes a panic)
+		if as, ok := st.(*ast.AssignStmt); ok && len(as.Rhs) == 1 && len(as.Lhs) == 2 && i+1 < len(list) {
+			if id, ok := as.Lhs[1].(*ast.Ident); ok && id.Name == "err" {
+				if is, ok := list[i+1].(*ast.IfStmt); ok && is.Init == nil && is.Else == nil && len(is.Body.List) == 1 && f.isErrNotNil(is.Cond) {
+					if es, ok := is.Body.List[0].(*ast.ExprStmt); ok {
+						if ce, ok := es.X.(*ast.CallExpr); ok && calleeName(ce.Fun) == "panic" {
+							if _, isCall := as.Rhs[0].(*ast.CallExpr); isCall {
+								r := f.expr(as.Rhs[0])
+								if r.pure {
+									fail(as.Pos(), "error-returning call translated as pure")
+								}
+								f.assignTo(o, as.Lhs[0], as.Tok, impure("(errToPanic "+r.mon()+")", r.t))
+								i++
+								continue
+							}
+						}
+					}
+				}
+			}
+		}
 		// x, err = call(); if err != nil { return ..., <an error that does not mention err> }
 		//    ==>   let x ← replaceErr call <that error>     (an error value is replaced; a panic is not an error value)
 		if as, ok := st.(*ast.AssignStmt); ok && len(as.Rhs) == 1 && len(as.Lhs) == 2 && i+1 < len(list) {
@@ -1391,6 +1471,33 @@ func probeOf(as *ast.AssignStmt, next ast.Stmt) (call ast.Expr, neg bool, ok boo
 		return nil, false, false
 	}
 	return as.Rhs[0], be.Op == token.NEQ, true
+}
+
+// catches reports whether `st` is `if err != nil { … }` whose body ends in a return or a panic and never mentions err, and
+// returns the body.
+func (f *fn) catches(st ast.Stmt) ([]ast.Stmt, bool) {
+	is, ok := st.(*ast.IfStmt)
+	if !ok || is.Init != nil || is.Else != nil || len(is.Body.List) == 0 || !f.isErrNotNil(is.Cond) {
+		return nil, false
+	}
+	switch l := is.Body.List[len(is.Body.List)-1].(type) {
+	case *ast.ReturnStmt:
+	case *ast.ExprStmt:
+		if ce, ok := l.X.(*ast.CallExpr); !ok || calleeName(ce.Fun) != "panic" {
+			return nil, false
+		}
+		return nil, false // a panic that wraps err is the propagation of a failure the model does not have: not this idiom
+	default:
+		return nil, false
+	}
+	mentions := false
+	ast.Inspect(is.Body, func(n ast.Node) bool {
+		if id, ok := n.(*ast.Ident); ok && id.Name == "err" {
+			mentions = true
+		}
+		return true
+	})
+	return is.Body.List, !mentions
 }
 
 // replaces reports whether `st` is `if err != nil { return [zero,] E }` with E an error expression that does not mention err,
